@@ -535,7 +535,7 @@ def check_all(prop: str, pkg, opts, res) -> list:
             fail("C10", f"API file(s) {api_files}, expected {pkg['root']}__api.json")
     if prop == "C11":
         check_refs(fail, stubs, safe, truth)
-    if prop == "C12" and api is not None:
+    if prop in ("C12", "C06") and api is not None:      # C06: the passing kind, optionality and default recorded in the API JSON
         check_inventory(fail, truth, api, excluded)
     return fails
 
